@@ -2,6 +2,7 @@
 import ast
 
 from .. import rules_tree as RT
+from .. import miniev as ME
 from ..astutil import (Guards, enum_paths, src, is_name, is_attr, lin, lin_diff, sym_path, local_defs, assigned_names)
 from ..cg import get_cg
 from ..fold import TT, NotConst
@@ -287,10 +288,117 @@ def check_bounds(ctx):
             a, b = c.args[1], c.args[2]
             ok, why = bounds_ordered(ctx, f, c, a, b)
             if ok is None and f.name in ACCEPTED_BOUNDS:
-                ctx.ob('R3.5', key, loc, 'bounds ordered by a hand-confirmed invariant', 'accepted', ACCEPTED_BOUNDS[f.name])
+                # the invariant was confirmed by reading one particular body; whether today's body keeps it is decided by interpreting the pass (R3.9)
+                sim = pass_simulation(ctx, f)
+                ctx.ob('R3.5', key, loc, f'bounds ordered by a named invariant ({ACCEPTED_BOUNDS[f.name]}), confirmed by interpreting {f.name} on token lists (R3.9)',
+                       True if sim is True else (None if sim is None else False), 'the pass builds an empty group / crashes on an interpreted list, see R3.9' if sim is False else 'the pass is not evaluable, see R3.9')
             else:
                 ctx.ob('R3.5', key, loc, f'start <= end at `{src(c)}`', ok, why)
     ctx.need(n >= 10, f'only {n} group_tokens call sites found in engine/grouping.py')
+
+
+PASS_ATOMS = {
+    # pass -> atoms of the token lists it is interpreted on: (label, ttype path or class name, text)
+    'group_values': [('V', ('Keyword',), 'values'), ('P', 'Parenthesis', '(1)'), (',', ('Punctuation',), ','), ('x', ('Name',), 'x'), ('w', ('Text', 'Whitespace'), ' ')],
+    'group_where': [('W', ('Keyword',), 'where'), ('G', ('Keyword',), 'group by'), ('x', 'Identifier', 'x'), ('P', 'Parenthesis', '(1)'), ('w', ('Text', 'Whitespace'), ' ')],
+    'group_comments': [('C', ('Comment', 'Multiline'), '/*c*/'), ('n', ('Text', 'Whitespace', 'Newline'), '\n'), ('w', ('Text', 'Whitespace'), ' '), ('x', ('Name',), 'x')],
+}
+
+
+def pass_simulation(ctx, f):
+    """A hand-written pass interpreted (with TokenList.group_tokens and every look-up it calls) on all token lists of up to five atoms and on
+    doubled shapes (two runs of its construct, the first longer than the second, two more tokens behind): afterwards the leaves are the
+    same, in order, no group is empty, every child names its parent.  True / False / None (not evaluable); the obligation is R3.9."""
+    import itertools
+    cache = ctx.shared('pass_simulation', dict)
+    key = f.qname
+    if key in cache:
+        return cache[key]
+    repo = ctx.repo
+    ctx.rule('R3.9', 'hand-written passes whose bounds rest on a named invariant, interpreted on token lists: leaves kept, no empty group, parents right, no crash', floor=1)
+    atoms = PASS_ATOMS[f.name]
+    loc = f'{f.mod.relpath}:{f.node.lineno}'
+    stm = repo.classes.get('sqlparse.sql.Statement')
+
+    def mk(a):
+        label, kind, text = a
+        if isinstance(kind, str):
+            c_ = repo.classes.get(f'sqlparse.sql.{kind}')
+            if kind == 'Parenthesis':
+                kids = [ME.AbsToken(repo, ttype=TT(('Punctuation',)), value='('), ME.AbsToken(repo, ttype=TT(('Literal', 'Number', 'Integer')), value='1'),
+                        ME.AbsToken(repo, ttype=TT(('Punctuation',)), value=')')]
+            else:
+                kids = [ME.AbsToken(repo, ttype=TT(('Name',)), value=text)]
+            return group(c_, kids)
+        t_ = ME.AbsToken(repo, ttype=TT(kind), value=text)
+        t_.parent = None
+        return t_
+
+    def group(c_, kids):
+        g_ = ME.AbsToken(repo, cls=c_)
+        g_.tokens, g_.parent, g_.is_whitespace = kids, None, False
+        g_.value = ''.join(k.value for k in kids)
+        for k in kids:
+            k.parent = g_
+        return g_
+
+    def leaves(t):
+        if t.is_group:
+            for k in t.tokens:
+                yield from leaves(k)
+        else:
+            yield t
+
+    def wellformed(t):
+        if t.is_group:
+            if not t.tokens:
+                return f'empty {t.cls.name} group'
+            for k in t.tokens:
+                if k.parent is not t:
+                    return f'child {k.value!r} of a {t.cls.name} names another parent'
+                r = wellformed(k)
+                if r:
+                    return r
+        return None
+    labels = [a[0] for a in atoms]
+    byl = {a[0]: a for a in atoms}
+    seqs = [p_ for n_ in range(1, 6) for p_ in itertools.product(labels, repeat=n_)] if len(labels) <= 4 else \
+        [p_ for n_ in range(1, 5) for p_ in itertools.product(labels, repeat=n_)]
+    core = labels[:3]
+    shorts = [p_ for n_ in range(1, 3) for p_ in itertools.product(core, repeat=n_)]
+    longs = [p_ for n_ in range(2, 5) for p_ in itertools.product(core, repeat=n_)]
+    filler = labels[3]
+    doubles = [l_ + s_ + (filler, filler) for l_ in longs for s_ in shorts if l_[0] == labels[0] and s_[0] == labels[0]]
+    bad, n = [], 0
+    res = True
+    for sq in seqs + doubles:
+        st = group(stm, [mk(byl[x]) for x in sq])
+        before = list(leaves(st))
+        ev = ME.Evaluator(ctx, f.mod, None)
+        ev.effects = True
+        try:
+            ME.run_function(ev, f.node, {f.params[0]: st}, max_steps=5000)
+        except (ME.Unsupported, ME.Unknown) as e:
+            ctx.ob('R3.9', f'{f.name}:simulation', loc, f'{f.name} is evaluable on token lists', None, f'{" ".join(sq)}: {e}')
+            cache[key] = None
+            return None
+        except ME.Crash as e:
+            bad.append(f'[{" ".join(sq)}]: {e}')
+            continue
+        n += 1
+        after = list(leaves(st))
+        if len(after) != len(before) or any(a is not b for a, b in zip(after, before)):
+            bad.append(f'[{" ".join(sq)}]: the leaves changed')
+            continue
+        r = wellformed(st)
+        if r:
+            bad.append(f'[{" ".join(sq)}]: {r}')
+    if bad:
+        res = False
+    ctx.ob('R3.9', f'{f.name}:simulation', loc, f'{f.name} interpreted on {n} token lists over {labels} (all lists up to {5 if len(labels) <= 4 else 4} atoms, {len(doubles)} doubled shapes) '
+           'keeps the leaves and builds no empty group', not bad, f'{len(bad)} list(s), e.g. {bad[:3]}')
+    cache[key] = res
+    return res
 
 
 def bounds_ordered(ctx, f, c, a, b):
